@@ -164,11 +164,52 @@ func (x *FnExec) eval(fr *frame, e Expr, c *evalCtx) (Val, error) {
 	case *EIdent:
 		return x.evalIdent(fr, e.Name, c)
 	case *EUnary:
+		if e.Op == "&" {
+			// address of a field reached through a pointer: the same location term a store of that address produces
+			sel, ok := e.X.(*ESel)
+			if !ok {
+				return Val{}, fmt.Errorf("& applies to a field selector (p.f)")
+			}
+			bv, err := x.eval(fr, sel.X, c)
+			if err != nil {
+				return Val{}, err
+			}
+			pt, ok := bv.T.Underlying().(*types.Pointer)
+			if !ok {
+				return Val{}, fmt.Errorf("&%s: base is not a pointer", e.X)
+			}
+			stt, ok := pt.Elem().Underlying().(*types.Struct)
+			if !ok {
+				return Val{}, fmt.Errorf("&%s: base is not a pointer to struct", e.X)
+			}
+			idx, path := findField(stt, sel.F)
+			if idx < 0 || len(path) != 1 {
+				return Val{}, fmt.Errorf("&%s: no direct field %s", e.X, sel.F)
+			}
+			hn, hs, _ := x.fieldHeap(pt.Elem(), idx)
+			ft := stt.Field(idx).Type()
+			a := &Addr{Root: rootField, Base: bv.S, Heap: hn, HSort: hs, RootT: ft, T: ft}
+			return Val{S: x.materialize(Val{T: types.NewPointer(ft), Addr: a}), T: types.NewPointer(ft)}, nil
+		}
 		v, err := x.eval(fr, e.X, c)
 		if err != nil {
 			return Val{}, err
 		}
 		switch e.Op {
+		case "*":
+			if v.T == nil {
+				return Val{}, fmt.Errorf("* of ghost value")
+			}
+			pt, ok := v.T.Underlying().(*types.Pointer)
+			if !ok {
+				return Val{}, fmt.Errorf("* of non-pointer %s", v.T)
+			}
+			switch pt.Elem().Underlying().(type) {
+			case *types.Struct, *types.Array:
+				return Val{}, fmt.Errorf("* of pointer to %s: select a field instead", pt.Elem())
+			}
+			hn, hs := x.boxHeap(pt.Elem())
+			return Val{S: sel(x.heapGet(c.state(), hn, hs), x.scalar(v)), T: pt.Elem()}, nil
 		case "!":
 			return Val{S: not(v.S), T: types.Typ[types.Bool]}, nil
 		case "-":
